@@ -18,7 +18,8 @@ INDEX_RX = re.compile(r"ops::Index(Mut)?(<.*>)?>?::index(_mut)?$|SliceIndex(<.*>
                       r"(core|std)::(slice::index|array|str::traits)::(<impl .*>::)?index(_mut)?$")
 PRECOND_RX = re.compile(
     r"slice::(<impl \[T\]>::)?(split_at|split_at_mut|copy_from_slice|clone_from_slice|copy_within|swap|chunks|chunks_exact|windows|rotate_left|rotate_right|split_first_chunk)$|"
-    r"(bytes::)?(BytesMut|Bytes)::(split_to|split_off|advance|slice|truncate_front)$|bytes::Buf::(advance|copy_to_slice|copy_to_bytes|get_u8|get_u16|get_u32|get_u64|split_to)$|buf::Buf::\w+$|"
+    r"(bytes::)?(BytesMut|Bytes)::(split_to|split_off|advance|slice|truncate_front)$|Buf>?::(advance|copy_to_slice|copy_to_bytes|get_u8|get_u16|get_u32|get_u64|get_i\d+|split_to)$|"
+    r"ReadBuf(<.*>)?::(put_slice|advance|set_filled)$|"
     r"bytes::BufMut::(put_slice|advance_mut)$|"
     r"vec::Vec(<.*>)?::(remove|swap_remove|insert|split_off|drain)$|VecDeque(<.*>)?::(remove|insert|drain|split_off|swap)$|"
     r"str::(<impl str>::)?(split_at|split_at_mut)$|string::String::(remove|insert|insert_str|split_off|drain|truncate)$|"
